@@ -332,7 +332,11 @@ def _fresh_digest(target):
     spec = json.dumps(util.enc(target))
     code = ("import sys, json; sys.path.insert(0, %r); from vf.core import env, util; env.bootstrap(); "
             "from vf.checks import C13; t = util.dec(json.loads(sys.stdin.read())); print('DIGEST=' + C13.run_target(t))" % env.VERIF_ROOT)
-    cp = subprocess.run([sys.executable, "-c", code], input=spec, capture_output=True, text=True, timeout=300, env=env.child_env())
+    # another interpreter, another hash salt: a result may not depend on the process it is computed in (hash("...") of a string is
+    # salted per process unless PYTHONHASHSEED fixes it)
+    e_ = dict(env.child_env())
+    e_["PYTHONHASHSEED"] = str((int(e_.get("PYTHONHASHSEED", "0") or 0) + 1 + util.derive_seed("C13hs", spec) % 4000) % 4294967295 or 1)
+    cp = subprocess.run([sys.executable, "-c", code], input=spec, capture_output=True, text=True, timeout=300, env=e_)
     for line in cp.stdout.splitlines():
         if line.startswith("DIGEST="):
             return line[len("DIGEST="):]
